@@ -376,3 +376,71 @@ Example C18_example_floats :
   minModule [3%float; (-0)%float; 0%float] = [(-0)%float] /\
   multiplyModule [3%float; 0x1p-1%float; 4%float] = [6%float].
 Proof. split; [exact trivial_libm_ok|vm_compute; repeat split]. Qed.
+
+(* ============================================================================================ *)
+(* ==== added by agent "actbodies" (C18: bodies tied to the source by translation) ============= *)
+(* ============================================================================================ *)
+(* 6. The model functions are the translated source                                              *)
+(*    gen/ActBodies.v is regenerated on every run from the BODIES of the functions that the      *)
+(*    Register/RegisterModule calls of neat/math/activations.go bind ([gen_<GoName>], calls of   *)
+(*    math.Exp/Tanh/Sin/Pow answered by the oracle L of [run]).  Each hand-written model function *)
+(*    of model/Act.v -- the subject of every theorem above -- equals the translated body, for     *)
+(*    every interpretation of the math library and every input (NaN, infinities, -0 included):    *)
+(*    by name, and by type code through the factory.  Editing a body in the source breaks this.   *)
+(* ============================================================================================ *)
+From NeatModel Require Import ActBodies ActBodiesAgree.
+
+Theorem C18_model_is_the_translated_source :
+  (forall (L : libm_fn -> float -> float -> float) (x : float),
+     gen_plainSigmoid L x = run L (plainSigmoid x) /\
+     gen_reducedSigmoid L x = run L (reducedSigmoid x) /\
+     gen_bipolarSigmoid L x = run L (bipolarSigmoid x) /\
+     gen_steepenedSigmoid L x = run L (steepenedSigmoid x) /\
+     gen_approximationSigmoid L x = run L (approximationSigmoid x) /\
+     gen_approximationSteepenedSigmoid L x = run L (approximationSteepenedSigmoid x) /\
+     gen_inverseAbsoluteSigmoid L x = run L (inverseAbsoluteSigmoid x) /\
+     gen_leftShiftedSigmoid L x = run L (leftShiftedSigmoid x) /\
+     gen_leftShiftedSteepenedSigmoid L x = run L (leftShiftedSteepenedSigmoid x) /\
+     gen_rightShiftedSteepenedSigmoid L x = run L (rightShiftedSteepenedSigmoid x) /\
+     gen_hyperbolicTangent L x = run L (hyperbolicTangent x) /\
+     gen_bipolarGaussian L x = run L (bipolarGaussian x) /\
+     gen_gaussian L x = run L (gaussian x) /\
+     gen_linear L x = run L (linear x) /\
+     gen_absoluteLinear L x = run L (absoluteLinear x) /\
+     gen_clippedLinear L x = run L (clippedLinear x) /\
+     gen_nullFunctor L x = run L (nullFunctor x) /\
+     gen_signFunction L x = run L (signFunction x) /\
+     gen_sineFunction L x = run L (sineFunction x) /\
+     gen_stepFunction L x = run L (stepFunction x)) /\
+  (forall (L : libm_fn -> float -> float -> float) (xs : list float),
+     gen_multiplyModule L xs = multiplyModule xs /\
+     gen_maxModule L xs = maxModule xs /\
+     gen_minModule L xs = minModule xs) /\
+  (* the generated tables hold one translated body per registered type code ... *)
+  map fst gen_scalar_table = map fst act_bindings /\
+  map fst gen_module_table = map fst act_module_bindings /\
+  (* ... and what the factory runs for a code is the body translated for that code *)
+  (forall (c : Z) (g : (libm_fn -> float -> float -> float) -> float -> float),
+     In (c, g) gen_scalar_table ->
+     exists f : float -> comp,
+       (forall x, activate_by_type node_activators x c = Ok (f x)) /\
+       (forall L x, g L x = run L (f x))) /\
+  (forall (c : Z) (g : (libm_fn -> float -> float -> float) -> list float -> list float),
+     In (c, g) gen_module_table ->
+     forall L xs, activate_module_by_type node_activators xs c = Ok (g L xs)).
+Proof.
+  exact (conj scalar_bodies_agree (conj module_bodies_agree
+        (conj (proj1 gen_tables_cover_registry) (conj (proj2 gen_tables_cover_registry)
+        (conj scalar_table_agrees module_table_agrees))))).
+Qed.
+Print Assumptions C18_model_is_the_translated_source.
+
+(* non-vacuity: the tables are populated and the translated bodies compute *)
+Example C18_example_translated_bodies :
+  length gen_scalar_table = 20%nat /\ length gen_module_table = 3%nat /\
+  gen_approximationSigmoid trivial_libm (-0x1.8p+1) = 0x1p-5%float /\
+  gen_plainSigmoid trivial_libm 0x1p+0 = 0x1p-1%float /\
+  gen_signFunction trivial_libm (-0x1p-1074) = (-1)%float /\
+  gen_maxModule trivial_libm [(-0x1.158e460913dp+64)%float] = [(-0x1.158e460913dp+64)%float] /\
+  gen_minModule trivial_libm [] = [0x1.fffffffffffffp+1023%float].
+Proof. vm_compute. repeat split. Qed.
